@@ -82,6 +82,11 @@ type Run struct {
 	Verbose    bool
 	Log        []string
 	Nontrivial bool
+	// MapOrdered: the system under test walked a Go map and a fault stopped the walk part way,
+	// so how much had been done before the fault (and everything after it) is decided by the
+	// runtime's map iteration order, which the simulator does not own. Such a run is excluded
+	// from the determinism canary; a violation found in one is replayed until it reproduces.
+	MapOrdered bool
 }
 
 func NewRun(verbose bool) *Run {
@@ -171,20 +176,21 @@ type ReplayFile struct {
 }
 
 type WorkerResult struct {
-	Property    string            `json:"property"`
-	Worker      int               `json:"worker"`
-	Runs        uint64            `json:"runs"`
-	Steps       int64             `json:"steps"`
-	SimSeconds  float64           `json:"sim_seconds"`
-	Counters    map[string]int64  `json:"counters"`
-	Sigs        []string          `json:"nontrivial_sigs"`
-	Samples     []json.RawMessage `json:"samples"`
-	Violation   *Violation        `json:"violation,omitempty"`
-	Replay      string            `json:"replay,omitempty"`
-	WallSeconds float64           `json:"wall_s"`
-	CanaryRuns  int               `json:"canary_runs"`
-	CanaryBad   []string          `json:"canary_mismatch,omitempty"`
-	HarnessErr  string            `json:"harness_error,omitempty"`
+	Property      string            `json:"property"`
+	Worker        int               `json:"worker"`
+	Runs          uint64            `json:"runs"`
+	Steps         int64             `json:"steps"`
+	SimSeconds    float64           `json:"sim_seconds"`
+	Counters      map[string]int64  `json:"counters"`
+	Sigs          []string          `json:"nontrivial_sigs"`
+	Samples       []json.RawMessage `json:"samples"`
+	Violation     *Violation        `json:"violation,omitempty"`
+	Replay        string            `json:"replay,omitempty"`
+	WallSeconds   float64           `json:"wall_s"`
+	CanaryRuns    int               `json:"canary_runs"`
+	CanarySkipped int               `json:"canary_skipped_map_ordered,omitempty"`
+	CanaryBad     []string          `json:"canary_mismatch,omitempty"`
+	HarnessErr    string            `json:"harness_error,omitempty"`
 }
 
 // SafeExecute runs w.Execute converting a panic that escapes the world into a
@@ -235,6 +241,10 @@ func Search(t *testing.T, w World, o Options) *WorkerResult {
 			break
 		}
 		v2 := SafeExecute(t, w, p2, r2, o.Property)
+		if r1.MapOrdered || r2.MapOrdered {
+			res.CanarySkipped++
+			continue
+		}
 		res.CanaryRuns++
 		if r1.Digest() != r2.Digest() || (v1 == nil) != (v2 == nil) {
 			res.CanaryBad = append(res.CanaryBad, fmt.Sprintf("run %d: %s vs %s", idx, r1.Digest(), r2.Digest()))
